@@ -34,3 +34,14 @@ MUTANTS += [
      [("src/pptx/shapes/placeholder.py", "            PP_PLACEHOLDER.SUBTITLE: PP_PLACEHOLDER.BODY,", "            PP_PLACEHOLDER.SUBTITLE: PP_PLACEHOLDER.SUBTITLE,")],
      "R13.5 base_ph_type[SUBTITLE]"),
 ]
+
+MUTANTS += [
+    ("cloneable-in-reverse", "cloneable placeholders are handed out last first",
+     [("src/pptx/slide.py", "        for ph in self.placeholders:\n            if ph.element.ph_type not in latent_ph_types:\n                yield ph",
+       "        for ph in reversed(list(self.placeholders)):\n            if ph.element.ph_type not in latent_ph_types:\n                yield ph")],
+     "R13.1 SlideLayout.iter_cloneable_placeholders:order"),
+    ("inherit-only-without-xfrm", "geometry is inherited only by a placeholder without any a:xfrm",
+     [("src/pptx/shapes/placeholder.py", "        directly_applied_value = getattr(super(_InheritsDimensions, self), attr_name)\n        if directly_applied_value is not None:\n            return directly_applied_value\n        return self._inherited_value(attr_name)",
+       "        if self._element.xfrm is None:\n            return self._inherited_value(attr_name)\n        return getattr(super(_InheritsDimensions, self), attr_name)")],
+     "R13.6 _InheritsDimensions._effective_value"),
+]
